@@ -622,6 +622,12 @@ def r5_library(chk):
             if isinstance(g, ast.If) and any(x is v for v in v1 for x in ast.walk(g)):
                 foreign |= {n for n in names_in(g.test) - {"path", "Path", "header", vvar, "os", "f"} if not is_module_constant(n)}
         foreign.discard("overwrite")  # `... and not overwrite` is required, see the next obligation
+        # a local that merely names something derived from the path / the header (`p = Path(path)`, a helper's renamed parameter)
+        env_i = Env(init.node)
+        for nm_ in list(foreign):
+            v_ = env_i.single(nm_)
+            if v_ is not None and not (names_in(env_i.expand(v_, depth=6)) - {"path", "Path", "header", vvar, "os", "f", "self", "open"}):
+                foreign.discard(nm_)
         # the header that decides is the header of the file the library will *have*: when the file is about to be overwritten
         # (a new file in the current format is created in its place) the old file's magic must not select the legacy codec
         if "overwrite" in init.params():
